@@ -8,6 +8,7 @@ mod mockfs;
 mod pack;
 mod props;
 mod qrun;
+mod replsim;
 mod sim;
 mod tygen;
 mod tysem;
